@@ -409,7 +409,7 @@ CLAIMED = ['sqAttacked_w', 'sqAttacked_b', 'sqAttacked3', 'sqAttacked2', 'inChec
 PROPERTIES = {'C01': CLAIMED}
 ASSUMPTIONS = {'C01': [
     'assumed contracts (stubs): BitBoard::rookAttacks / bishopAttacks return the ray sets over the given occupancy (magic lookup and its tables are not proved)',
-    'assumed contracts: BitBoard::kingAttacks/knightAttacks/wPawnAttacks/bPawnAttacks/squaresBetween equal their coordinate definitions (table initialisation in BitBoard::staticInitialize not proved yet); getDirection is proved in unit bits',
+    'BitBoard::kingAttacks/knightAttacks/wPawnAttacks/bPawnAttacks are used through contracts proved in unit bbtables (table initialisation fragments of staticInitialize + lookups); squaresBetween: lookup proved, initialisation of squaresBetweenTable NOT proved (assumed); getDirection is proved in unit bits',
     'assumed contract: MoveList::addMove appends exactly its move (placement new into the int buffer, text pinned); A-MAXMOVES: the capacity of 256 moves is never exceeded',
     'position domain: bitboards consistent with the board (wf_bb), one king per side, no pawns on the first/last rank, castling rights imply king and rook on their squares, en-passant square as makeMove establishes it',
 ]}
